@@ -1,5 +1,6 @@
 import Sigc.Model
 import Sigc.Lemmas.Basic
+import Sigc.Lemmas.InvCall
 /-!
 # C20 — behaviour is independent of compiler, optimisation level and API switches  (partial, DESIGN §5 C20)
 
@@ -9,6 +10,12 @@ representation with `call_ ≠ nullptr` is a typed representation that still hol
 model: `call = true → fn.isSome` (`SlotB.CallHasFn`), established by every constructor of slot values and
 preserved by every slot-value operation the library performs.  (The type equality of the erased call's
 function-pointer type at all call sites is proved in Sigc/Props/C20Types.lean.)
+The second part of this file lifts the per-operation facts to all histories: `AllCall s` (every user slot
+variable and every cell of every `signal_impl` of `s` satisfies `CallHasFn`) holds in every state of every
+terminating run of every program (`callHasFn_reachable`), is preserved by every function of the interpreter
+(so it holds at every operation boundary inside emissions: `callHasFn_execLine` …) and by the harness
+teardown; hence the three sites of the erased call (`emitLoop`, `deref`, `callS`) enter `invokeFun` with a
+functor whenever they find a callable representation (`…_finds_functor`, `…_enters_invokeFun`).
 The rest of C20 — what an optimiser does — is observed by the configuration matrix, not proved.
 -/
 namespace Sigc.C20
@@ -105,5 +112,337 @@ theorem emitLoop_calls_only_typed_reps (f : Nat) (P : Prog) (s : St) (i cur m ar
 
 example : CallHasFn ({ rep := some { call := true, fn := some (.leaf 1 []) } } : SlotB).copy :=
   copy_ok _ (made_ok false _)
+
+/-! ## the lift to all histories
+
+`Sigc.InvCall.AC` (`Sigc/Lemmas/InvCall.lean`) is `AllCall` stated with `InvCall.CallOk`, which is
+`CallHasFn` (`Iff.rfl`); it instantiates the generic preservation schema `Sigc.Inv.Stable`. -/
+
+/-- every user slot variable and every cell of every `signal_impl` satisfies `CallHasFn` -/
+def AllCall (s : St) : Prop :=
+  (∀ p ∈ s.S, CallHasFn p.2.slot) ∧ (∀ q ∈ s.impls, ∀ c ∈ q.2.cells, CallHasFn c.slot)
+
+theorem callHasFn_iff_callOk (sl : SlotB) : CallHasFn sl ↔ InvCall.CallOk sl := Iff.rfl
+
+theorem allCall_iff_AC (s : St) : AllCall s ↔ InvCall.AC s := Iff.rfl
+
+theorem allCall_init : AllCall ({} : St) := InvCall.AC.init
+
+/-- **all histories**: every state in which a terminating run of a program ends satisfies `AllCall`
+    (every fuel, every program; every prefix of a program is a program, so: every state between two
+    top-level operations) -/
+theorem callHasFn_reachable (fuel : Nat) (P : Prog) (s : St) (h : Model.runTop fuel P {} P.top = some s) :
+    AllCall s :=
+  InvCall.AC.reachable fuel P s h
+
+/-- the same from any `AllCall` state and for any list of operations -/
+theorem callHasFn_runTop_from (fuel : Nat) (P : Prog) (ls : List Line) (s s' : St) (hs : AllCall s)
+    (h : Model.runTop fuel P s ls = some s') : AllCall s' :=
+  InvCall.AC.stable.runTop_from fuel P ls s s' hs h
+
+/-- **every operation boundary**, also inside emissions (`execLine` is what `runBody` runs for each
+    operation of a functor body, at any depth): one operation takes `AllCall` states to `AllCall` states -/
+theorem callHasFn_execLine (fuel : Nat) (P : Prog) (s : St) (l : Line) (r : St × Outcome) (hs : AllCall s)
+    (h : execLine fuel P s l = some r) : AllCall r.1 :=
+  InvCall.AC.stable.execLine hs h
+
+theorem callHasFn_execOp (fuel : Nat) (P : Prog) (s : St) (op : Op) (r : St × Except Unit String) (hs : AllCall s)
+    (h : execOp fuel P s op = some r) : AllCall r.1 :=
+  InvCall.AC.stable.execOp hs h
+
+/-- a whole emission (prologue, loop with everything the slots do, epilogue with sweep and `~signal_impl`) -/
+theorem callHasFn_emitImpl (fuel : Nat) (P : Prog) (s : St) (fl : Flavour) (impl : Option Nat) (arg : Nat)
+    (strat : Strat) (r : St × Outcome × Nat) (hs : AllCall s) (h : emitImpl fuel P s fl impl arg strat = some r) :
+    AllCall r.1 :=
+  InvCall.AC.stable.emitImpl hs h
+
+/-- the erased call itself: whatever the functor's body does -/
+theorem callHasFn_invokeFun (fuel : Nat) (P : Prog) (s : St) (fn : Fun) (arg : Nat) (r : St × Outcome × Nat)
+    (hs : AllCall s) (h : invokeFun fuel P s fn arg = some r) : AllCall r.1 :=
+  InvCall.AC.stable.invokeFun hs h
+
+/-- every function of the mutual block (`invokeFun`, `runBody`, `execLine`, `emitImpl`, `emitLoop`, `deref`,
+    `accLoop`, `revLoop`, `walkLoop`, `runStrat`, `execOp`), for every fuel: the state each of them returns
+    satisfies `AllCall` when the state it started in does.  Every state in which `emitLoop`/`deref`/`callS`
+    inspects a representation is the result of such calls on the initial state. -/
+theorem callHasFn_every_function (fuel : Nat) : Inv.PresAll (fun (_ : Unit) => AllCall) fuel :=
+  Inv.preserved InvCall.AC.stable.toK fuel
+
+/-- the loop of the non-accumulating emitters between two cells -/
+theorem callHasFn_emitLoop (fuel : Nat) (P : Prog) (s : St) (i cur m arg v : Nat) (r : St × Outcome × Nat)
+    (hs : AllCall s) (h : emitLoop fuel P s i cur m arg v = some r) : AllCall r.1 :=
+  (callHasFn_every_function fuel).2.2.2.2.1 () P s i cur m arg v r hs h
+
+/-- the harness teardown keeps it too -/
+theorem callHasFn_teardown (fuel : Nat) (P : Prog) (s s' : St) (hs : AllCall s)
+    (h : Model.teardown fuel P s = some s') : AllCall s' :=
+  InvCall.AC.stable.teardown fuel P s s' hs h
+
+/-! ### what the sites of the erased call find -/
+
+/-- a callable representation of a `CallHasFn` slot has the shape the call sites match on -/
+theorem callable_typed (sl : SlotB) (h : CallHasFn sl) (fn : Option Fun)
+    (hr : sl.rep = some { call := true, fn := fn }) : ∃ g, fn = some g := by
+  have := h _ hr rfl
+  cases fn with
+  | none => cases this
+  | some g => exact ⟨g, rfl⟩
+
+/-- a `CallHasFn` slot that is not `empty()` is a typed representation holding its functor -/
+theorem nonempty_typed (sl : SlotB) (h : CallHasFn sl) (hne : sl.empty = false) :
+    ∃ g, sl.rep = some { call := true, fn := some g } := by
+  unfold SlotB.empty at hne
+  cases hr : sl.rep with
+  | none => rw [hr] at hne; cases hne
+  | some r0 =>
+    obtain ⟨call, fn⟩ := r0
+    rw [hr] at hne
+    cases call
+    · cases hne
+    · obtain ⟨g, rfl⟩ := callable_typed sl h fn hr
+      exact ⟨g, rfl⟩
+
+/-- for a `CallHasFn` slot the skip hypothesis of `emitLoop_calls_only_typed_reps` is `empty()`: the case
+    "callable but without functor" of the skip branch does not occur -/
+theorem skip_iff_empty (sl : SlotB) (h : CallHasFn sl) :
+    (∀ fn, sl.rep ≠ some { call := true, fn := some fn }) ↔ sl.empty = true := by
+  constructor
+  · intro hno
+    cases he : sl.empty with
+    | true => rfl
+    | false =>
+      obtain ⟨g, hg⟩ := nonempty_typed sl h he
+      exact absurd hg (hno g)
+  · intro he fn hr
+    unfold SlotB.empty at he
+    rw [hr] at he
+    cases he
+
+/-- `emitLoop`: the cell under the iterator, if its representation is callable, holds its functor -/
+theorem emitLoop_finds_functor (s : St) (hA : AllCall s) (i cur : Nat) (im : Impl) (c : Cell)
+    (hi : aget s.impls i = some im) (hc : im.cells.find? (·.id = cur) = some c) (fn : Option Fun)
+    (hr : c.slot.rep = some { call := true, fn := fn }) : ∃ g, fn = some g :=
+  callable_typed c.slot (hA.2 (i, im) (Inv.mem_of_aget hi) c (List.mem_of_find?_eq_some hc)) fn hr
+
+/-- `deref` (`slot_iterator_buf::operator*`): the same for the accumulating emitters -/
+theorem deref_finds_functor (s : St) (hA : AllCall s) (i : Nat) (it : IterBuf) (im : Impl) (c : Cell)
+    (hi : aget s.impls i = some im) (hc : im.cells.find? (·.id = it.pos) = some c) (fn : Option Fun)
+    (hr : c.slot.rep = some { call := true, fn := fn }) : ∃ g, fn = some g :=
+  emitLoop_finds_functor s hA i it.pos im c hi hc fn hr
+
+/-- `callS` (`slot::operator()` on a user slot variable) -/
+theorem callS_finds_functor (s : St) (hA : AllCall s) (i : Nat) (v : SlotVar) (hv : aget s.S i = some v)
+    (fn : Option Fun) (hr : v.slot.rep = some { call := true, fn := fn }) : ∃ g, fn = some g :=
+  callable_typed v.slot (hA.1 (i, v) (Inv.mem_of_aget hv)) fn hr
+
+/-- in the words of the property, for reachable states: whenever a terminating run of a program has led to
+    a state in which a cell or a user slot variable has a representation with `call_ ≠ nullptr`, that
+    representation holds its functor -/
+theorem reachable_callable_has_functor (fuel : Nat) (P : Prog) (s : St)
+    (h : Model.runTop fuel P {} P.top = some s) :
+    (∀ i im c fn, aget s.impls i = some im → c ∈ im.cells → c.slot.rep = some { call := true, fn := fn } →
+      ∃ g, fn = some g) ∧
+    (∀ i v fn, aget s.S i = some v → v.slot.rep = some { call := true, fn := fn } → ∃ g, fn = some g) := by
+  have hA := callHasFn_reachable fuel P s h
+  exact ⟨fun i im c fn hi hc hr => callable_typed c.slot (hA.2 (i, im) (Inv.mem_of_aget hi) c hc) fn hr,
+         fun i v fn hv hr => callS_finds_functor s hA i v hv fn hr⟩
+
+/-- `emitLoop` in an `AllCall` state skips exactly the `empty()` cells (with
+    `emitLoop_calls_only_typed_reps`) … -/
+theorem emitLoop_skips_empty (f : Nat) (P : Prog) (s : St) (hA : AllCall s) (i cur m arg r : Nat) (im : Impl)
+    (c : Cell) (hne : cur ≠ m) (hi : aget s.impls i = some im) (hc : im.cells.find? (·.id = cur) = some c)
+    (he : c.slot.empty = true) :
+    emitLoop (f+1) P s i cur m arg r =
+      (match aget s.impls i with
+       | none => some (s.fail "loop: impl destroyed", .ok, r)
+       | some im2 =>
+         match succId im2.cells cur with
+         | none => some (s.fail "loop: iterator invalidated", .ok, r)
+         | some nxt => emitLoop f P s i nxt m arg r) :=
+  emitLoop_calls_only_typed_reps f P s i cur m arg r im c hne hi hc
+    ((skip_iff_empty c.slot (hA.2 (i, im) (Inv.mem_of_aget hi) c (List.mem_of_find?_eq_some hc))).2 he)
+
+/-- … and for a cell that is neither `empty()` nor blocked it enters `invokeFun` with the functor the
+    representation holds: the erased call goes to a live functor -/
+theorem emitLoop_enters_invokeFun (f : Nat) (P : Prog) (s : St) (hA : AllCall s) (i cur m arg r : Nat) (im : Impl)
+    (c : Cell) (hne : cur ≠ m) (hi : aget s.impls i = some im) (hc : im.cells.find? (·.id = cur) = some c)
+    (he : c.slot.empty = false) (hb : c.slot.blocked = false) :
+    ∃ g, c.slot.rep = some { call := true, fn := some g } ∧
+      emitLoop (f+1) P s i cur m arg r =
+        (match invokeFun f P s g arg with
+         | none => none
+         | some (s, .exc, v) => some (s, .exc, v)
+         | some (s, .ok, v) =>
+           match aget s.impls i with
+           | none => some (s.fail "loop: impl destroyed", .ok, v)
+           | some im2 =>
+             match succId im2.cells cur with
+             | none => some (s.fail "loop: iterator invalidated", .ok, v)
+             | some nxt => emitLoop f P s i nxt m arg v) := by
+  obtain ⟨g, hg⟩ := nonempty_typed c.slot
+    (hA.2 (i, im) (Inv.mem_of_aget hi) c (List.mem_of_find?_eq_some hc)) he
+  refine ⟨g, hg, ?_⟩
+  rw [emitLoop]
+  simp only [hne, if_false, hi, hc, hg, hb]
+  rfl
+
+/-- `deref` for a cell that is neither `empty()` nor blocked and was not yet invoked through this iterator -/
+theorem deref_enters_invokeFun (f : Nat) (P : Prog) (s : St) (hA : AllCall s) (i : Nat) (it : IterBuf) (arg : Nat)
+    (im : Impl) (c : Cell) (hi : aget s.impls i = some im) (hc : im.cells.find? (·.id = it.pos) = some c)
+    (he : c.slot.empty = false) (hb : c.slot.blocked = false) (hinv : it.invoked = false) :
+    ∃ g, c.slot.rep = some { call := true, fn := some g } ∧
+      deref (f+1) P s i it arg =
+        (match invokeFun f P s g arg with
+         | none => none
+         | some (s, .exc, _) => some (s, .exc, it)
+         | some (s, .ok, v) => some (s, .ok, { it with buf := v, invoked := true })) := by
+  obtain ⟨g, hg⟩ := nonempty_typed c.slot
+    (hA.2 (i, im) (Inv.mem_of_aget hi) c (List.mem_of_find?_eq_some hc)) he
+  refine ⟨g, hg, ?_⟩
+  rw [deref]
+  simp only [hi, hc, hg, hb, hinv]
+  rfl
+
+/-- `callS` on a user slot variable that is neither `empty()` nor blocked (within the depth and step budget) -/
+theorem callS_enters_invokeFun (f : Nat) (P : Prog) (s : St) (hA : AllCall s) (i arg : Nat) (v : SlotVar)
+    (hv : aget s.S i = some v) (hd : ¬ s.depth ≥ P.maxdepth) (hst : ¬ s.steps > P.maxsteps)
+    (he : v.slot.empty = false) (hb : v.slot.blocked = false) :
+    ∃ g, v.slot.rep = some { call := true, fn := some g } ∧
+      execOp (f+1) P s (.callS i arg) =
+        (match invokeFun f P (Inv.callPro s i v) g arg with
+         | none => none
+         | some (s1, o, r) =>
+           match o with
+           | .exc => some (Inv.callEpi s1 i, .error ())
+           | .ok => some (Inv.callEpi s1 i, .ok (showRes v.isVoid r))) := by
+  obtain ⟨g, hg⟩ := nonempty_typed v.slot (hA.1 (i, v) (Inv.mem_of_aget hv)) he
+  refine ⟨g, hg, ?_⟩
+  rw [execOp]
+  simp only [hv, hd, hst, if_false, hg, hb]
+  rfl
+
+/-! ### the inner slot of an adaptor (`Fun.nest`)
+
+The model keeps of a slot stored by value inside a functor only its `blocked_` flag and its functor
+(`inner : Option Fun`), so the inner erased call has its functor by construction; what has to be checked is
+that the collapse loses nothing: for a `CallHasFn` source, `inner = none` exactly when the source is `empty()`. -/
+
+theorem nest_inner_none_iff_empty (sl : SlotB) (h : CallHasFn sl) :
+    (match sl.copy.rep with | some r => r.fn | none => none) = none ↔ sl.empty = true := by
+  unfold SlotB.copy SlotB.empty
+  cases hr : sl.rep with
+  | none => simp
+  | some r0 =>
+    obtain ⟨call, fn⟩ := r0
+    cases call
+    · simp
+    · obtain ⟨g, rfl⟩ := callable_typed sl h fn hr
+      simp
+
+/-- `invokeFun` enters the inner functor of an adaptor only when there is one -/
+theorem invokeFun_nest (f : Nat) (P : Prog) (s : St) (b : Bool) (inner : Option Fun) (arg : Nat) :
+    invokeFun (f+1) P s (.nest b inner) arg =
+      (match inner with
+       | none => some (s, .ok, 0)
+       | some g => if b then some (s, .ok, 0) else invokeFun f P s g arg) := by
+  cases inner <;> rw [invokeFun]
+
+example : (match ({ rep := some { call := true, fn := some (.leaf 1 []) } } : SlotB).copy.rep with
+    | some r => r.fn | none => none) = some (.leaf 1 []) := rfl
+
+/-! ### non-vacuity
+
+`demo`: a void signal with slots made from four user slot variables: `s0` (plain functor 1), `s1` (bound to
+the trackable `t0`), `s3` (blocked) and `s2` (empty: `set_parent` gives its cell the dummy representation).
+During the emission the first slot destroys `t0` — the representation of `s1` and of its cell are
+invalidated (`call_ = nullptr`, functor released; the cell stays in the list until the sweep of the
+epilogue).  The loop goes on over an invalidated, a blocked and an empty cell: one call in total.  After
+the emission the empty slot is connected once more.  The final state has a callable, an invalidated, an
+empty and a blocked user slot, and a callable, a blocked and a dummy cell. -/
+
+def demo : Prog := {
+  bodies := [(1, [⟨"delT t0", .delT 0⟩])],
+  top := [⟨"newG g0 V", .newG 0 (some .V)⟩, ⟨"newT t0", .newT 0⟩,
+          ⟨"mkS s0 V fn:1", .mkS 0 "V" (.fn 1)⟩, ⟨"mkS s1 V mem:2:t0", .mkS 1 "V" (.mem 2 0)⟩,
+          ⟨"mkS0 s2 V", .mkS0 2 "V"⟩, ⟨"mkS s3 V fn:3", .mkS 3 "V" (.fn 3)⟩, ⟨"blockS s3 1", .blockS 3 true⟩,
+          ⟨"conn c1 g0 s0", .conn 1 0 0 false false⟩, ⟨"conn c2 g0 s1", .conn 2 0 1 false false⟩,
+          ⟨"conn c3 g0 s3", .conn 3 0 3 false false⟩, ⟨"conn c4 g0 s2", .conn 4 0 2 false false⟩,
+          ⟨"emit g0 7", .emit 0 7 .sum false⟩,
+          ⟨"conn c5 g0 s2", .conn 5 0 2 false false⟩] }
+
+/-- the kind of a slot value; `"untyped"` is what `CallHasFn` excludes -/
+def shape (sl : SlotB) : String :=
+  match sl.rep with
+  | none => "empty"
+  | some { call := true, fn := some _ } => if sl.blocked then "blocked" else "connected"
+  | some { call := true, fn := none } => "untyped"
+  | some { call := false, fn := some _ } => "disconnected"
+  | some { call := false, fn := none } => "invalidated"
+
+/-- the run terminates; the kinds of the user slots `s0..s3` and of the cells of the signal (the dummy
+    representation of the empty slot's cell has the shape of an invalidated one), the number of functor
+    calls, no model error -/
+example : (Model.runTop 40 demo {} demo.top).map (fun s =>
+      (s.S.map (fun p => (p.1, shape p.2.slot)), s.impls.map (fun q => q.2.cells.map (fun c => shape c.slot)),
+       (s.trace.filter (fun e => match e with | .call _ _ _ => true | _ => false)).length, s.err))
+    = some ([(0, "connected"), (1, "invalidated"), (2, "empty"), (3, "blocked")],
+            [["connected", "blocked", "invalidated"]], 1, none) := by decide +kernel
+
+/-- `callHasFn_reachable` and `reachable_callable_has_functor` on it -/
+example (s : St) (h : Model.runTop 40 demo {} demo.top = some s) : AllCall s := callHasFn_reachable 40 demo s h
+
+example (s : St) (h : Model.runTop 40 demo {} demo.top = some s) (v : SlotVar) (fn : Option Fun)
+    (hv : aget s.S 0 = some v) (hr : v.slot.rep = some { call := true, fn := fn }) : ∃ g, fn = some g :=
+  (reachable_callable_has_functor 40 demo s h).2 0 v fn hv hr
+
+/-- the state after the emission (before the last `conn`) is an `AllCall` state, and so is every state the
+    harness teardown goes through afterwards -/
+example (s s' : St) (h : Model.runTop 40 demo {} demo.top = some s) (ht : Model.teardown 40 demo s = some s') :
+    AllCall s' :=
+  callHasFn_teardown 40 demo s s' (callHasFn_reachable 40 demo s h) ht
+
+/-- a state in the middle of an emission (the cell 5 was invalidated during the emission and waits for the
+    sweep; the end marker 7 has no representation): `AllCall` holds, the loop skips the invalidated cell
+    and enters `invokeFun` with the functor of cell 6 -/
+def exMid : St :=
+  { G := [(0, { obj := 1, fl := .V, impl := some 3, trk := 2, lvl := 0 })],
+    impls := [(3, { cells := [{ id := 4, slot := { rep := some { call := true, fn := some (.leaf 1 []) } }, linked := true },
+                              { id := 5, slot := { rep := some { call := false, fn := none } }, linked := false },
+                              { id := 6, slot := { rep := some { call := true, fn := some (.leaf 2 []) } }, linked := true },
+                              { id := 7, slot := {}, linked := false }],
+                    exec := 1, deferred := true, holders := 1 })],
+    next := 8 }
+
+theorem exMid_allCall : AllCall exMid := by
+  refine ⟨fun p hp => (by cases hp), fun q hq c hc => ?_⟩
+  simp only [exMid, List.mem_singleton] at hq
+  subst hq
+  simp only [List.mem_cons, List.not_mem_nil, or_false] at hc
+  rcases hc with rfl | rfl | rfl | rfl
+  · exact made_ok false _
+  · exact invalidate_ok { rep := some { call := true, fn := some (.leaf 9 []) } }
+  · exact made_ok false _
+  · exact default_ok
+
+example (f : Nat) (P : Prog) :
+    emitLoop (f+1) P exMid 3 5 7 0 0 = emitLoop f P exMid 3 6 7 0 0 :=
+  emitLoop_skips_empty f P exMid exMid_allCall 3 5 7 0 0 _ _ (by decide) rfl rfl rfl
+
+example (f : Nat) (P : Prog) : ∃ g, g = Fun.leaf 2 [] ∧
+    emitLoop (f+1) P exMid 3 6 7 0 0 =
+      (match invokeFun f P exMid g 0 with
+       | none => none
+       | some (s, .exc, v) => some (s, .exc, v)
+       | some (s, .ok, v) =>
+         match aget s.impls 3 with
+         | none => some (s.fail "loop: impl destroyed", .ok, v)
+         | some im2 =>
+           match succId im2.cells 6 with
+           | none => some (s.fail "loop: iterator invalidated", .ok, v)
+           | some nxt => emitLoop f P s 3 nxt 7 0 v) := by
+  obtain ⟨g, hg, he⟩ := emitLoop_enters_invokeFun f P exMid exMid_allCall 3 6 7 0 0 _ _ (by decide) rfl rfl rfl rfl
+  refine ⟨g, ?_, he⟩
+  simp only [Option.some.injEq, Rep.mk.injEq, true_and] at hg
+  exact hg.symm
 
 end Sigc.C20
